@@ -83,6 +83,36 @@ Theorem C16_header_single_entry : forall dec dbg o t rec v s, tape_wf t ->
 Proof. exact header_single_entry. Qed.
 Print Assumptions C16_header_single_entry.
 
+(* type narrowing reaches exactly the tokens the option names: unquoted scalars unless None, quoted
+   scalars only under All; everything else is the decoded string *)
+Theorem C16_narrowing_applies_exactly : forall dec dbg o t rec v k, TapeWf.tget t v = Some k ->
+  match k with
+  | TUnquoted s =>
+      ser_value_step dec dbg o t rec v =
+      match type_narrowing o with NarrowNone => Ok (JStr (dec s)) | _ => serialize_scalar dec t v end
+  | TQuoted s =>
+      ser_value_step dec dbg o t rec v =
+      match type_narrowing o with NarrowAll => serialize_scalar dec t v | _ => Ok (JStr (dec s)) end
+  | _ => True
+  end.
+Proof. exact narrowing_applies_exactly. Qed.
+Print Assumptions C16_narrowing_applies_exactly.
+
+(* TypeNarrowing::None: no leaf anywhere in the output (also below headers, operators, inside
+   arrays and remainders) is a boolean or a number, for the three entry points and every tape *)
+Theorem C16_narrowing_none_everywhere : forall dec dbg o t, dec_contract dec ->
+  type_narrowing o = NarrowNone ->
+  (forall v j, json_value dec dbg o t v = Ok j -> narrowed_leaves j = 0) /\
+  (forall r j, json_object dec dbg o t r = Ok j -> narrowed_leaves j = 0) /\
+  (forall r j, json_array dec dbg o t r = Ok j -> narrowed_leaves j = 0).
+Proof.
+  intros dec dbg o t DC NN. split; [|split].
+  - apply json_value_unnarrowed; auto.
+  - apply json_object_unnarrowed; auto.
+  - apply json_array_unnarrowed; auto.
+Qed.
+Print Assumptions C16_narrowing_none_everywhere.
+
 (* non-vacuity: a tree with every kind of leaf, control characters, quotes, backslashes and
    non-ASCII text; its two texts; the hypotheses of the theorems hold for it *)
 Definition ex_fmt (b : N) : bytes := [49; 46; 53]%N.      (* "1.5": stands for ryu in the example *)
